@@ -50,7 +50,7 @@ ASSUMPTIONS = [
 	"1e-9 (log2) of the p-value threshold is skipped (inconclusive)",
 	"scores compared at 1e-9 (the kernel is compiled with fastmath)",
 ]
-REQUIRED = {"motifs_with_p_exactly_equal_to_threshold": 3,
+REQUIRED = {"many_sequence_calls": 1, "motifs_with_p_exactly_equal_to_threshold": 3,
 	"history_followup_calls": 20, "reference_hits": 200, "hits_in_last_window": 10,
 	"hits_in_first_window": 10, "thread_variants": 5, "fasta_variants": 5}
 TECHNIQUE = ("runtime monitoring: pure-Python reference scanner + exact tail "
@@ -91,6 +91,8 @@ def make_case(params):
 	L0 = r.choice([1, 2, 5, 8, 12, 20, 30, 60, 120, 200])
 	if params.get("max_len"):
 		L0 = min(L0, params["max_len"])
+	if params.get("many_seqs"):
+		L0 = r.choice([8, 12, 20])
 	for i in range(params["n_seqs"]):
 		L = L0 if equal else r.choice([1, 3, 6, 10, 20, 21, 40, 80, 200])
 		s = list(gen.rand_seq(r, L))
@@ -600,6 +602,10 @@ def plan(tier, seed):
 			u["env"] = {"NUMBA_NUM_THREADS": "8",
 				"NUMBA_THREADING_LAYER": "workqueue"}
 		units.append(u)
+	# more sequences in one call than any block / counter size in use
+	for j in range(1 if tier == "quick" else 8):
+		units.append({"cls": "scan", "k0": 10 ** 6 + j, "k1": 10 ** 6 + j + 1,
+			"seed": seed, "tier": tier, "weight": 12, "mode": "many"})
 	return units
 
 
@@ -607,6 +613,14 @@ def run_unit(unit, rec):
 	for k in range(unit["k0"], unit["k1"]):
 		params = gen_params(unit["seed"], k, unit["tier"])
 		cls = "scan"
+		if unit["mode"] == "many":
+			r = gen.pyrng("C12many", unit["seed"], k)
+			params.update(many_seqs=True, equal_length=True,
+				n_seqs=r.choice([4097, 4500, 8193, 4096 + r.randint(2, 900)]),
+				n_motifs=r.randint(1, 2), exact_threshold=False,
+				threshold=r.choice([1e-2, 1e-3]))
+			cls = "scan-many-sequences"
+			rec.count("many_sequence_calls")
 		if unit["mode"] == "threads":
 			import numba
 			r = gen.pyrng("C12t", unit["seed"], k)
